@@ -159,15 +159,16 @@ class Encoder:
         s = self.s
         rx = st['rx']
         if rx is None:
-            rxp, req, nxt = 0, [], 0
+            rxp, req, nxt, todo = 0, [], 0, []
         else:
             i = rx['p']
             rxp = i + 1
             req = [s.block_index(i, b, l) for b, l in rx['req']]
             nxt = s.block_index(i, rx['left'][0][0], rx['left'][0][1]) if rx['left'] else s.nblocks[i] + 1
+            todo = sorted(s.block_index(i, b, l) for b, l in rx['left'])
         buf = [f['a'][0] + 1 for f in st['buf'] if f['k'] == 'Have']
         return {'ch': st['ch'], 'ka': st['ka'], 'hs': st['hs'], 'rxp': rxp, 'req': sorted(req), 'nxt': nxt,
-                'tx': 0 if st['tx'] is None else st['tx'] + 1, 'buf': buf}
+                'tx': 0 if st['tx'] is None else st['tx'] + 1, 'buf': buf, 'todo': todo}
 
     def mstate(self, e):
         st = []
@@ -263,23 +264,90 @@ def geometry_module(pid, geo, peers):
     return d, name, cfg
 
 
+OBS_INVARIANTS = ('TypeOK OwnedImpliesStored ServedImpliesStored AdvertisedImpliesStored SilentBeforeHandshake NoDataBeforeHandshake '
+                  'OwnHandshakeFirst ServeOnlyUnchoked DeferredWhileChoked ReservedBacked AskOnlyAdvertisedAndLacked NoPanic SlotBound '
+                  'KaBound ExtractOnlyComplete ObsRxShape ObsAnnPrefix')
+OBS_PROPERTIES = ('THaveStable RotationPolicy ObsDisk ObsBadHandshake ObsServe ObsTile ObsComplete ObsBitfield ObsAnnAtRest '
+                  'ObsPick ObsPickNone ObsViewAtRest ObsKeepAlive ObsNoAbandon')
+
+
+def obs_module(pid, geo, peers, tag=''):
+    np_, nb = geo
+    name = 'MC_SwarmObs_%d_%s_%s' % (np_, '_'.join(str(x) for x in nb), tag)
+    d = os.path.join(outdir(pid), 'tla')
+    os.makedirs(d, exist_ok=True)
+    with open(os.path.join(d, name + '.tla'), 'w') as f:
+        f.write('---- MODULE %s ----\nEXTENDS SwarmObs\nNB == %s\n====\n' % (
+            name, ' @@ '.join('(%d :> %d)' % (i + 1, x) for i, x in enumerate(nb)) if nb else '<<>>'))
+    cfg = os.path.join(d, name + '.cfg')
+    with open(cfg, 'w') as f:
+        f.write('SPECIFICATION OSpec\nCONSTANTS\n  Peers = {%s}\n  NPieces = %d\n  NBlocks <- NB\n  EndGame = 10\n  MaxUnchoked = 10\n'
+                '  OptRounds = 3\n  KALimit = 2\n  Pipeline = {1, 2, 3}\n  Rates = {0}\n  FrameKinds = {}\n  BFMenu = {}\n  Own0 = {}\n  Bugs = {}\n  HS0 = FALSE\n'
+                'INVARIANTS %s\nPROPERTIES %s\nPOSTCONDITION Report\nCHECK_DEADLOCK FALSE\n'
+                % (', '.join('"p%d"' % (i + 1) for i in range(peers)), np_, OBS_INVARIANTS, OBS_PROPERTIES))
+    return d, name, cfg
+
+
+def obs_all(pid, scns, traces, idxs=None, jobs=8):
+    """SwarmObs.tla over the given scenarios (all by default): list of problems {scenario, inv, kind:'property', ...}"""
+    from concurrent.futures import ThreadPoolExecutor
+    idxs = list(range(len(scns))) if idxs is None else list(idxs)
+    probs = []
+
+    def one(i):
+        return i, validate_obs(pid, scns[i], traces[i], tag='o%d' % i)
+    with ThreadPoolExecutor(max_workers=jobs) as ex:
+        for i, res in ex.map(one, idxs):
+            if res['matched'] != len(traces[i]) and not res['violated']:
+                log(res['tail'])
+                raise ToolError('SwarmObs could not read scenario %d to the end (%s of %d events)' % (i, res['matched'], len(traces[i])))
+            for name, li in res['where']:
+                ev = traces[i][li - 2] if li and 2 <= li <= len(traces[i]) + 1 else None
+                probs.append({'scenario': i, 'event_index': (li - 2) if li else None, 'event': ev, 'inv': name, 'kind': 'property', 'tlc_tail': res['tail']})
+    return probs
+
+
+def validate_obs(pid, scn, trace, tag='obs'):
+    """Property-level reading of one recorded execution (SwarmObs.tla): returns (violated formula names, consumed all, tail)."""
+    npeers = max(len(scn.sc['peers']), max((int(ev['k'][1:]) for ev in trace if ev.get('k', '').startswith('p')), default=1))
+    d, mod, cfg = obs_module(pid, scn.geometry(), max(npeers, 1), tag)
+    tpath = os.path.join(d, mod + '.%s.ndjson' % tag)
+    with open(tpath, 'w') as f:
+        for ev in trace:
+            f.write(json.dumps(ev) + '\n')
+    res = run_tlc_trace(d, mod, cfg, tpath, cont=True)
+    return res
+
+
 INV_PROP = {
     'OwnedImpliesStored': 'C01', 'ServedImpliesStored': 'C01', 'AdvertisedImpliesStored': 'C11', 'SilentBeforeHandshake': 'C08',
     'NoDataBeforeHandshake': 'C08', 'OwnHandshakeFirst': 'C08', 'ServeOnlyUnchoked': 'C09', 'RxShape': 'C10', 'RequestsTile': 'C10',
     'AnnouncedInOrder': 'C11', 'DeferredWhileChoked': 'C11', 'ReservedBacked': 'C12', 'AskOnlyAdvertisedAndLacked': 'C12',
     'NoPanic': 'C12', 'ExtractOnlyComplete': 'C01', 'PickSound': 'C13', 'SlotBound': 'C14', 'ViewAgreement': 'C14', 'KaBound': 'C20', 'HaveStable': 'C12', 'THaveStable': 'C12', 'RotationPolicy': 'C14', 'TypeOK': 'C12',
+    'ObsDisk': 'C01', 'ObsBadHandshake': 'C08', 'ObsServe': 'C09', 'ObsRxShape': 'C10', 'ObsTile': 'C10', 'ObsComplete': 'C10',
+    'ObsBitfield': 'C11', 'ObsAnnPrefix': 'C11', 'ObsAnnAtRest': 'C11', 'ObsPick': 'C13', 'ObsPickNone': 'C13', 'ObsViewAtRest': 'C14',
+    'ObsKeepAlive': 'C20', 'ObsNoAbandon': 'C10',
 }
+
+
+LAST_ACCEPTED = set()     # scenario indexes accepted by the last validate() call
+
+
+# formulas that state a sentence of more than one property
+INV_ALSO = {'NoPanic': ('C02', 'C09', 'C12', 'C06', 'C01'), 'ServedImpliesStored': ('C09',), 'AdvertisedImpliesStored': ('C01',),
+            'OwnedImpliesStored': ('C11',), 'ObsNoAbandon': ('C12',), 'ReservedBacked': ('C20',), 'ObsDisk': ('C02',)}
 
 
 def validate(pid, scns, traces, max_reports=8):
     """TLC trace validation of encoded traces, grouped by geometry. Returns (accepted scenario count,
     problems) where problems = list of dicts {scenario, line, event, kind: 'rejected'|'invariant', inv, ...}."""
     groups = {}
+    LAST_ACCEPTED.clear()
     for i, (s, t) in enumerate(zip(scns, traces)):
         groups.setdefault((s.geometry(), ), []).append(i)
     def one_group(item):
         (geo,), idxs = item
-        probs, acc = [], 0
+        probs, acc, okidx = [], 0, []
         npeers = max(max(len(scns[i].sc['peers']) for i in idxs),
                      max((int(ev['k'][1:]) for i in idxs for ev in traces[i] if ev.get('k', '').startswith('p')), default=1))
         d, mod, cfg = geometry_module(pid, geo, max(npeers, 1))
@@ -296,35 +364,38 @@ def validate(pid, scns, traces, max_reports=8):
             matched = res['matched']
             if res['inv'] is None and matched == len(owner):
                 acc += len(todo)
+                okidx.extend(todo)
                 break
             # the scenario owning the first unmatched line fails; everything before it was accepted
             bad_line = matched if matched < len(owner) else len(owner) - 1
             bad = owner[bad_line]
             k = todo.index(bad)
             acc += k
+            okidx.extend(todo[:k])
             first = sum(len(traces[i]) for i in todo[:k])
             ev = traces[bad][bad_line - first] if bad_line - first < len(traces[bad]) else None
             probs.append({'scenario': bad, 'event_index': bad_line - first, 'event': ev, 'inv': res['inv'],
                           'kind': 'invariant' if res['inv'] else 'rejected', 'tlc_tail': res['tail']})
             todo = todo[k + 1:]
-        return acc, probs
+        return acc, probs, okidx
 
     # geometry groups are independent: validate them in parallel (one single-worker TLC each)
     from concurrent.futures import ThreadPoolExecutor
     problems = []
     accepted = 0
     with ThreadPoolExecutor(max_workers=6) as ex:
-        for acc, probs in ex.map(one_group, list(groups.items())):
+        for acc, probs, okidx in ex.map(one_group, list(groups.items())):
             accepted += acc
             problems.extend(probs)
+            LAST_ACCEPTED.update(okidx)
     return accepted, problems[:max_reports * 2]
 
 
-def run_tlc_trace(d, mod, cfg, tpath):
+def run_tlc_trace(d, mod, cfg, tpath, cont=False):
     cmd = ['java', '-XX:+UseParallelGC', '-Xmx4g', '-Xss1g', '-Dtlc2.tool.queue.IStateQueue=StateDeque',
            '-DTLA-Library=' + SPEC, '-cp', JAR + ':/opt/veriftools/tla/CommunityModules-deps.jar', 'tlc2.TLC',
-           '-workers', '1', '-metadir', os.path.join(d, 'md_' + mod), '-cleanup', '-noGenerateSpecTE', '-config', cfg,
-           os.path.join(d, mod + '.tla')]
+           '-workers', '1', '-metadir', os.path.join(d, 'md_' + mod), '-cleanup', '-noGenerateSpecTE', '-config', cfg] + \
+          (['-continue'] if cont else []) + [os.path.join(d, mod + '.tla')]
     env = dict(os.environ, TRACE=tpath)
     try:
         p = subprocess.run(cmd, cwd=d, env=env, stdout=subprocess.PIPE, stderr=subprocess.STDOUT, text=True, timeout=1800)
@@ -334,6 +405,20 @@ def run_tlc_trace(d, mod, cfg, tpath):
     m = tlaval.find_printed(out, 'TRACE_MATCHED')
     inv = None
     import re
+    if cont:
+        names = sorted(set(re.findall(r'Invariant (\w+) is violated', out) + re.findall(r'[Aa]ction property (\w+) is violated', out)
+                           + re.findall(r'property (\w+) (?:is|was) violated', out)))
+        if not m and not names:
+            log(out[-3000:])
+            raise ToolError('SwarmObs produced no result (TLC error)')
+        where = []
+        segs = out.split('Error: ')[1:]
+        for j, seg in enumerate(segs):
+            mm = re.search(r'(?:Invariant|[Aa]ction property|property) (\w+) (?:is|was) violated', seg.split('\n')[0])
+            ls = re.findall(r'/\\ l = (\d+)', seg) or (re.findall(r'/\\ l = (\d+)', segs[j + 1]) if j + 1 < len(segs) else [])
+            if mm and not any(w[0] == mm.group(1) for w in where):
+                where.append((mm.group(1), int(ls[-1]) if ls else None))
+        return {'matched': m[-1][1] if m else None, 'total': m[-1][2] if m else None, 'violated': names, 'where': where, 'tail': out[-2500:], 'out': out}
     mi = re.search(r'Invariant (\w+) is violated', out) or re.search(r'Action property (\w+) is violated', out) \
         or re.search(r'property (\w+) is violated', out)
     if mi:
